@@ -40,6 +40,7 @@ Inductive mevent :=
   | MTx (x : side) (b : list Z)
   | MCh (x : side) (o : chop)
   | MRx (x : side) (b : list Z)
+  | MRxRefused (x : side) (b : list Z)  (* x read the staged in-sequence DATA packet and refused it: no room *)
   | MSnap (x : side) (n s base top recv : Z).
 
 (* rejection reasons, reported by the driver *)
@@ -241,6 +242,30 @@ Definition mstep (st : msys) (ev : mevent) : mres :=
                   dlift (dstep d (DBwd o)) 38 (fun d' => MOk (set_dsnd st1 y d'))
               end
           end
+      end
+  | MRxRefused y b =>
+      (* the receive loop read an in-sequence data packet while n accepted packets were still waiting for Recv: it
+         neither acknowledges nor delivers it. For the protocol that is a loss of the packet. *)
+      match stage st y with
+      | Some (TgData, o) =>
+          let st1 := set_stage st y None in
+          let d := drcv st y in
+          match d_fwd d with
+          | [] => MBad 32
+          | it :: _ =>
+              match PacketData_Serialize (f_pkt it) with
+              | Ok (Some bytes) =>
+                  if negb (zlist_eqb bytes b) then MBad 33 else
+                  if negb ((PacketData_Seq (f_pkt it) =? d_recv d) && negb (PacketData_IsPing (f_pkt it)) &&
+                           (d_n d <=? len (a_rbuf (apiof st y)))) then MBad 42 else
+                  match o with
+                  | Deliver => dlift (dstep d (DFwd Drop)) 34 (fun d' => MOk (set_dsnd st1 (peer y) d'))
+                  | _ => MOk st1   (* DeliverKeep: the retained copy is still in the channel *)
+                  end
+              | _ => MBad 35
+              end
+          end
+      | _ => MBad 30
       end
   | MSnap x n s base top recv =>
       let d := dsnd st x in
